@@ -123,3 +123,91 @@ package httpd
 //@   modifies nothing
 //@   attr assumed unsafe
 //@   ensures result == bytesText(store.id)
+
+// ---- registration (closes the trie-invariant assumption of findRoute / ServeHTTP) ----
+//@ func (*treeNode).nextNodeOrNew
+//@   requires node != nil
+//@   modifies node.next, entries(node.next)
+//@   ensures got: has(node.next, name) && node.next[name] == resNode && node.next != nil
+//@   ensures existing: old(has(node.next, name)) ==> node.next == old(node.next) && resNode == old(node.next[name])
+//@   ensures created: !old(has(node.next, name)) ==> resNode != nil && fresh(resNode) && resNode.next == nil && resNode.info == nil && len(resNode.paramNameList) == 0 && !resNode.inTrie && resNode.np == 0
+//@   ensures mapid: (old(node.next) != nil ==> node.next == old(node.next)) && (old(node.next) == nil ==> fresh(node.next))
+//@   ensures others: forall k string {has(node.next, k)} :: k != name ==> has(node.next, k) == old(has(node.next, k)) && node.next[k] == old(node.next[k])
+
+// no two trie nodes share a child map (each node makes its own)
+//@ pure mapsOK() bool = forall a *treeNode, b *treeNode {a.next, b.next} :: a.inTrie && b.inTrie && a.next != nil && a.next == b.next ==> a == b
+
+// a path segment: the bytes strictly between two slashes
+//@ pure noSlash(path string, lo int, hi int) bool = forall j int {path[j]} :: lo <= j && j < hi ==> path[j] != '/'
+
+//@ func parseRoute
+//@   requires node != nil && node.inTrie && node.np == 0 && trieOK() && mapsOK() && info != nil && !info.registered
+//@   modifies fields(treeNode.next), fields(treeNode.info), fields(treeNode.paramNameList), allmaps(treeNode.next), ghostfields(inTrie), ghostfields(np), ghostfields(registered)
+//@   ensures trie: trieOK()
+//@   ensures maps: mapsOK()
+//@   ensures root: node.inTrie && node.np == 0
+//@   ensures ok: err == nil ==> info.registered && paramsCnt >= 0
+//@   ensures keep: forall i *RouteInfo {i.registered} :: old(i.registered) ==> i.registered
+//@   ghost before call nextNodeOrNew#2 assert seg: len(arg1) > 0 && arg1[0] != '/' && !isTag(arg1) && !isParamKey(arg1)
+//@   ghost after call nextNodeOrNew#1 set ret.inTrie = true
+//@   ghost after call nextNodeOrNew#1 set ret.np = arg0.np + 1
+//@   ghost after call nextNodeOrNew#2 set ret.inTrie = true
+//@   ghost after call nextNodeOrNew#2 set ret.np = arg0.np
+//@   ghost after call nextNodeOrNew#3 set ret.inTrie = true
+//@   ghost after call nextNodeOrNew#3 set ret.np = arg0.np + 1
+//@   ghost after call nextNodeOrNew#4 set ret.inTrie = true
+//@   ghost after call nextNodeOrNew#4 set ret.np = arg0.np
+//@   ghost after call nextNodeOrNew#4 set info.registered = true
+//@   loop 1
+//@     invariant length == len(path) && 0 <= left && left <= right && right <= len(path) + 1 && (left < right || right == 0)
+//@     invariant noSlash(path, left + 1, right) && (left < len(path) ==> left == 0 || path[left] == '/')
+//@     invariant cur: node != nil && node.inTrie && node.np == len(paramNameList)
+//@     invariant trie: trieOK()
+//@     invariant maps: mapsOK()
+//@     invariant root: old(node).inTrie && old(node).np == 0
+//@     invariant isTag(methodTag) && info != nil && !info.registered && (arr(paramNameList) == nil || fresh(arr(paramNameList)))
+//@     invariant forall i *RouteInfo {i.registered} :: old(i.registered) ==> i.registered
+//@     decreases len(path) + 1 - right
+
+// a Mux as the registration API leaves it: what ServeHTTP needs (muxOK) plus the no-sharing invariant
+//@ pure muxReg(mux *Mux) bool = mux != nil && muxOK(mux) && mapsOK()
+
+// reflection on the handler's name only (assumed side-effect free)
+//@ func nameOfFunc
+//@   attr assumed reflection
+//@   modifies nothing
+
+//@ func newRouteInfo
+//@   modifies nothing
+//@   ensures result != nil && fresh(result) && result.HandlerFunc == handler && !result.registered
+
+//@ func (*Mux).HandleRelay
+//@   requires mux != nil
+//@   modifies mux.relayHandler
+//@   ensures mux.relayHandler == handler
+
+//@ func (*Mux).HandleNoRoute
+//@   requires mux != nil
+//@   modifies mux.routeNotFound
+//@   ensures mux.routeNotFound != nil && fresh(mux.routeNotFound) && !mux.routeNotFound.registered
+
+//@ func (*Mux).newStoreWith
+//@   requires mux != nil
+//@   modifies nothing
+//@   ensures result != nil
+
+// NewMux: an empty trie (the root is a trie node without children); tries of other Muxes are untouched
+//@ func NewMux
+//@   requires trieOK() && mapsOK()
+//@   mayPanic
+//@   modifies ghostfields(inTrie)
+//@   ensures ok: muxReg(result) && fresh(result) && fresh(result.root)
+//@   ghost before call HandleRelay set arg0.root.inTrie = true
+
+// Handle: registration keeps the invariants (it panics on an invalid or duplicate route)
+//@ func (*Mux).Handle
+//@   requires muxReg(mux) && !mux.mu.wheld && !mux.mu.rheld && handler != nil
+//@   mayPanic
+//@   modifies mux.mu.wheld, mux.maxParams, fields(treeNode.next), fields(treeNode.info), fields(treeNode.paramNameList), allmaps(treeNode.next), ghostfields(inTrie), ghostfields(np), ghostfields(registered)
+//@   ensures ok: muxReg(mux) && !mux.mu.wheld
+//@   ensures keep: forall i *RouteInfo {i.registered} :: old(i.registered) ==> i.registered
